@@ -3000,7 +3000,7 @@ def regenerate():
     rep.update(regenerate_modules())
     fall = {k: v for k, v in rep.items() if not v.startswith("translated")}
     return {"status": "ok", "changed_vs_expected": txt != exp, "fallbacks": fall, "items": len(rep),
-            "sha": hashlib.sha256(txt.encode()).hexdigest()[:12]}
+            "sha": hashlib.sha256(txt.encode()).hexdigest()[:12], "report": rep}
 
 
 if __name__ == "__main__":
